@@ -116,7 +116,9 @@ def spec_dual(inp, lat, D, res, check_plot):
         if np.max(np.abs(dlt)) > TOL:
             bad.append(("dual:vertex-position", f"dual vertex {i} at {dp[i]} is not the plaquette centre {c} mod 1"))
             break
-    if np.any(dp < 0) or np.any(dp >= 1):
+    cm = np.array(cents).reshape(-1, 2)
+    generic_c = np.abs(cm - np.round(cm)) > 1e-9          # centre not on a cell line
+    if np.any((dp < 0) | ((dp >= 1) & generic_c)):
         bad.append(("dual:vertex-range", "a dual vertex is outside [0,1)"))
     # two-sided edges in edge order
     fwd, bwd = {}, {}
@@ -288,12 +290,19 @@ def spec_trunc(inp, lat, sel, out_lat, res):
         for e in es:
             col = 0 if int(edges[e][0]) == v else 1
             corner.append(int(e2[e][col]))
+        # the block holds, in some rotation of the clockwise order, the directed edges corner u -> corner u+1
+        rows = {}
+        for r in range(off, off + d):
+            rows.setdefault((int(e2[r][0]), int(e2[r][1])), []).append(r)
         for u in range(d):
-            row = e2[off + u]
             exp_vec = (ws[(u + 1) % d] - ws[u]) / 3
-            if (int(row[0]), int(row[1])) != (corner[u], corner[(u + 1) % d]) or np.max(np.abs(vec_out[off + u] - exp_vec)) > TOL:
-                bad.append(("trunc:polygon-edge", f"vertex {v}: polygon edge {u} (row {off + u}) = {row.tolist()} vector {vec_out[off + u]}; expected corners {(corner[u], corner[(u + 1) % d])} vector (w[u+1]-w[u])/3 = {exp_vec}"))
+            cand = rows.get((corner[u], corner[(u + 1) % d]), [])
+            hit = [r for r in cand if np.max(np.abs(vec_out[r] - exp_vec)) <= TOL]
+            if not hit:
+                bad.append(("trunc:polygon-edge", f"vertex {v}: no polygon edge from corner {corner[u]} to the next corner clockwise {corner[(u + 1) % d]} with vector (w[u+1]-w[u])/3 = {exp_vec} "
+                                                  f"(block rows {e2[off:off + d].tolist()}, vectors {vec_out[off:off + d].tolist()})"))
                 break
+            rows[(corner[u], corner[(u + 1) % d])].remove(hit[0])
         if sorted(corner) != list(range(base[v], base[v] + d)):
             bad.append(("trunc:corner-indices", f"vertex {v}: its corners are not the consecutive new indices {base[v]}..{base[v] + d - 1}"))
         off += d
@@ -673,7 +682,13 @@ def evaluate(ctx, cases, label):
                     out_lat = vertices_to_polygon(lat, arg)
                 except Exception as e:
                     res.count(fam + "/trunc")
-                    res.violation("trunc:raised", f"vertices_to_polygon({'None' if sel is None else sel}) raised {type(e).__name__}: {e}", one)
+                    chosen = range(len(pos)) if sel is None else ([sel] if form == "scalar" else sel)
+                    n_tr = sum(1 for v in set(int(x) for x in chosen) if 0 <= v < len(pos) and len(lat.vertices.adjacent_edges[v]) > 2)
+                    if n_tr == 0 and isinstance(e, ValueError) and "same number of dimensions" in str(e):
+                        res.violation("trunc:nothing-to-truncate-raises", f"vertices_to_polygon({'None' if sel is None else sel}) with no selected vertex of degree > 2 "
+                                      f"(the result should be the unchanged lattice) raised ValueError: {e}", one)
+                    else:
+                        res.violation("trunc:raised", f"vertices_to_polygon({'None' if sel is None else sel}) raised {type(e).__name__}: {e}", one)
                     continue
                 sel_list = None if sel is None else ([sel] if form == "scalar" else list(sel))
                 bad, info = spec_trunc((pos, edges, cr), lat, sel_list, out_lat, res)
